@@ -19,8 +19,9 @@ IntParts ==
    "100000000000000000000000000000000000000",          \* 10^38
    "99999999999999999999999999999999999999",           \* 10^38-1
    "440282366920938463463374607431768211456",          \* 2^128 + 10^38 (wraps to 10^38 in 128 bits)
+   "17014118346046923173168730371588410572", "1701411834604692317316873037158841057",       \* floor(MAX/10), floor(MAX/100)
    "1" \o Rep("0", 39), Rep("9", 40)} \cup
-  (IF Tier = "thorough" THEN {"17014118346046923173168730371588410572", "1701411834604692317316873037158841057", "340282366920938463463374607431768211455",
+  (IF Tier = "thorough" THEN {"17014118346046923173168730371588410571", "340282366920938463463374607431768211455",
                               "340282366920938463463374607431768211456", "510423550381407695195061911147652317183", Rep("0", 40) \o "5", "1" \o Rep("0", 20)} ELSE {})
 FracParts ==
   {"none", "", "0", "5", "25", "000", Rep("0", 17) \o "1", Rep("0", 18) \o "1", Rep("9", 18), Rep("9", 19), "5" \o Rep("0", 20), Rep("0", 39) \o "1"} \cup
